@@ -1,6 +1,6 @@
 use crate::{hash_path, user_forc_directory};
 use std::{
-    fs::{create_dir_all, read_dir, remove_file, File},
+    fs::{create_dir_all, read_dir, remove_file, rename, File},
     io::{self, Read, Write},
     path::{Path, PathBuf},
 };
@@ -149,20 +149,46 @@ impl PidFileLocking {
             // Ensure the directory exists
             create_dir_all(dir)?;
         }
+        // Write the pid into a private temporary file and publish it with an atomic rename.
+        // The lock file must never be observable empty or partially written: `get_locker_pid`
+        // treats such a file as unlocked and `cleanup_stale_files` (run by every
+        // `PidFileLocking::new`) removes it, so a concurrent process could delete a lock that
+        // is just being taken. The temporary file does not have the lock extension, so
+        // `cleanup_stale_files` does not mistake it for a lock file.
+        let tmp = self.temp_path();
         #[cfg(fuellabs_sway_verif)]
         sway_types::verif_hooks::point("lock.before_create", &|| String::new());
-
-        let mut fs = File::create(&self.0)?;
-        #[cfg(fuellabs_sway_verif)]
-        sway_types::verif_hooks::point("lock.created", &|| String::new());
-        fs.write_all(std::process::id().to_string().as_bytes())?;
-        #[cfg(fuellabs_sway_verif)]
-        sway_types::verif_hooks::point("lock.written", &|| String::new());
-        fs.sync_all()?;
-        fs.flush()?;
+        let result = (|| {
+            let mut fs = File::create(&tmp)?;
+            #[cfg(fuellabs_sway_verif)]
+            sway_types::verif_hooks::point("lock.created", &|| String::new());
+            fs.write_all(std::process::id().to_string().as_bytes())?;
+            fs.sync_all()?;
+            fs.flush()?;
+            drop(fs);
+            #[cfg(fuellabs_sway_verif)]
+            sway_types::verif_hooks::point("lock.written", &|| String::new());
+            rename(&tmp, &self.0)
+        })();
+        if result.is_err() {
+            let _ = remove_file(&tmp);
+        }
+        result?;
         #[cfg(fuellabs_sway_verif)]
         sway_types::verif_hooks::point("lock.done", &|| String::new());
         Ok(())
+    }
+
+    /// Path of the temporary file `lock` writes before renaming it over the lock file:
+    /// `<lock file name>.tmp<pid>`, next to the lock file.
+    fn temp_path(&self) -> PathBuf {
+        let mut name = self
+            .0
+            .file_name()
+            .map(|n| n.to_os_string())
+            .unwrap_or_default();
+        name.push(format!(".tmp{}", std::process::id()));
+        self.0.with_file_name(name)
     }
 
     /// Cleans up all stale lock files in the .lsp-locks directory
@@ -200,6 +226,14 @@ impl PidFileLocking {
                                 cleaned_paths.push(path);
                             }
                         }
+                    }
+                } else if let Some(pid) = ext
+                    .strip_prefix("tmp")
+                    .and_then(|pid| pid.parse::<usize>().ok())
+                {
+                    // Temporary file left behind by a process that died inside `lock`
+                    if !Self::is_pid_active(pid) {
+                        let _ = remove_file(&path);
                     }
                 }
             }
